@@ -92,9 +92,13 @@ def execute(case):
     branches = 0
     cuts = 0
     children = {}
+    join_by = ["k"]
     def other_list():
+        # the right-hand list names its key "k" or "rk" (then the join is given the pair form, as a tuple or a list)
+        kn = rng.choice(["k", "k", "rk"])
+        join_by[0] = "k" if kn == "k" else rng.choice([("k", "rk"), ["k", "rk"]])
         with capture_stdout():
-            return di.ListOfDicts([{"k": rng.choice([1, 2, None]), "extra": rng.choice([7, 8]), "_otag_": i} for i in range(rng.randint(0, 3))])
+            return di.ListOfDicts([{kn: rng.choice([1, 2, None]), "extra": rng.choice([7, 8]), "_otag_": i} for i in range(rng.randint(0, 3))])
     for step in range(case["nsteps"]):
         node = rng.choice(nodes)
         r = rng.random()
@@ -145,7 +149,7 @@ def execute(case):
                 elif op == "reverse": out = lst.reverse()
                 elif op == "sample": out = lst.sample(rng.randint(0, n + 1))
                 elif op in ("semi_join", "anti_join"):
-                    out = getattr(lst, op)(other, "k") if all("k" in x for x in _items(lst)) else lst.copy()
+                    out = getattr(lst, op)(other, join_by[0]) if all("k" in x for x in _items(lst)) else lst.copy()
                 elif op == "drop_na": out = lst.drop_na("k")
                 elif op == "append": out = lst.append(fresh_items(1, 0)[0])
                 elif op == "extend": out = lst.extend(fresh_items(rng.randint(0, 2), 0))
@@ -167,7 +171,7 @@ def execute(case):
                 elif op == "construct": out = di.ListOfDicts(_items(lst))
                 elif op in ("inner_join", "left_join"):
                     if all("k" in x for x in _items(lst)):
-                        out = getattr(lst, op)(other, "k")
+                        out = getattr(lst, op)(other, join_by[0])
                     else:
                         op = "use"; out = None; lst.pluck("_tag_")
             printed = buf.getvalue()
@@ -178,6 +182,16 @@ def execute(case):
             res.violate(f"{op}:raised:{exc_name(e)}", f"history step {step} {op} raised {e!r}; trace {trace}")
             return res.dict()
         trace.append(op)
+        if other is not None and out is not None:
+            # the right-hand argument of a join is not derived from anything edited: using it afterwards prints nothing
+            with capture_stdout() as obuf:
+                try:
+                    other.pluck("_otag_"); other.head(1)
+                except Exception as e:
+                    res.violate(f"{op}:right-operand-unusable:{exc_name(e)}", f"after {op} the right-hand list raised {e!r}; trace {trace}")
+            if obuf.getvalue().strip():
+                res.violate(f"{op}:right-operand-reported-obsolete", f"after {op}(other, {join_by[0]!r}) using the right-hand list printed {obuf.getvalue()[:200]!r}; trace {trace}")
+            res.count("join-right-operand-checked")
         nwarn = len([l for l in printed.splitlines() if l.strip()])     # any printed line counts as the warning (wording may change)
         expect = 1 if (node.obsolete and not node.warned) else 0
         if op == "construct":
